@@ -79,6 +79,18 @@ func c10Corpus(thorough bool) []c10Req {
 			out = append(out, c10Req{Name: "weightedSum/" + strings.TrimPrefix(r.Name, "defaults/"), Body: J(r.Req)})
 		}
 	}
+	// option twins: two requests that use the same non-default option of the same bias on different data (other criteria
+	// ids, another number of criteria) — a component that is selected by the option and shared by all requests shows
+	// cross-talk between them
+	for _, o := range []string{"random", "weakestByProbability", "strongest"} {
+		for _, bn := range []string{"criteriaOmission", "preferenceReversal"} {
+			b := bias(bn, M{"ratio": 0.5, "ordering": o, "randomSeed": 9})
+			a := withBiases(rootRequest("weightedSum", true, false), []M{b})
+			other := genericRequest("weightedSum", []string{"k1", "k2", "k3", "k4", "k5"}, 1, []string{"p", "q", "r"},
+				[][]float64{{1, 2, 3, 4, 5}, {5, 4, 3, 2, 1}, {2, 2, 2, 2, 2}}, []string{"q", "p"}, []float64{1, 2, 3, 4, 5})
+			out = append(out, c10Req{Name: "optiontwin/" + bn + "-" + o + "/A", Body: J(a)}, c10Req{Name: "optiontwin/" + bn + "-" + o + "/B", Body: J(withBiases(other, []M{b}))})
+		}
+	}
 	inv := invalidCorpus()
 	for i, r := range inv {
 		if i == 1 || i == 3 || i == 19 || strings.Contains(r.Rule, "unknown-ordering") || strings.Contains(r.Rule, "unknown-reference-type") || strings.Contains(r.Rule, "ratio-above-one") {
@@ -114,6 +126,12 @@ func c10Pairs(corpus []c10Req, thorough bool) []c10Pair {
 			sameK := kind(i) == kind(j) && method(i) != "invalid" && method(j) != "invalid"
 			mixed := (method(i) == "invalid") != (method(j) == "invalid")
 			switch {
+			case method(i) == "optiontwin" && method(j) == "optiontwin":
+				if strings.SplitN(kind(i), "-", 2)[1][:3] == strings.SplitN(kind(j), "-", 2)[1][:3] && kind(i) != kind(j) {
+					add(i, j) // same ordering, any of the two biases, different data
+					add(j, i)
+				}
+			case method(i) == "optiontwin" || method(j) == "optiontwin":
 			case thorough && (sameM || sameK || mixed):
 				add(i, j)
 			case sameM && (j-i == 1 || j-i == 3):
